@@ -208,10 +208,22 @@ def run(prog, rep):
         "a fit description without 'method'")
     q = f"{GHM}.fit"
     data = ("call", G("numpy.array"), (P("data"),), ())
+    def _alts_of(pc):
+        # the literals of a path condition, a disjunction counted by its members ('a or b' rejects when a holds and when b holds)
+        out = []
+        for l in pc:
+            out.extend(l[1] if l[0] == "or" else [l])
+        return out
     row(rep, prog, "data-dimension", q, "ValueError",
-        lambda pc: ("not", CMP("==", ("sub", ("attr", data, "shape"), ("const", -1)), ("attr", SELF, "n_dim"))) in pc
-        or ("not", CMP("==", ("sub", ("attr", data, "shape"), ("const", 1)), ("attr", SELF, "n_dim"))) in pc,
+        lambda pc: ("not", CMP("==", ("sub", ("attr", data, "shape"), ("const", -1)), ("attr", SELF, "n_dim"))) in _alts_of(pc)
+        or ("not", CMP("==", ("sub", ("attr", data, "shape"), ("const", 1)), ("attr", SELF, "n_dim"))) in _alts_of(pc),
         "data whose number of columns differs from the model dimension", anchors=lambda c: loops(c))
+    two = ("const", 2)
+    row(rep, prog, "data-not-a-matrix", q, "ValueError",
+        lambda pc: any(l in (("not", CMP("==", ("attr", data, "ndim"), two)), ("not", CMP("==", ("call", G("len"), (("attr", data, "shape"),), ()), two)),
+                             ("not", CMP("==", ("call", G("numpy.ndim"), (data,), ()), two))) for l in _alts_of(pc)),
+        "data that is not a two-dimensional (observations x variables) array: with (1, n, 2)- or (n, 2, 2)-shaped data the last axis matches and "
+        "every variable is fitted to rows of the wrong axis", anchors=lambda c: loops(c))
     c = Ctx(prog, q)
     calls = stmts_calling(c, "_check_and_fill_fit_desc")
     ok = len(calls) == 1 and all(c.cfg.dominates(c.cfg.node(calls[0]), c.cfg.node(l)) for l in loops(c))
@@ -269,7 +281,7 @@ def run(prog, rep):
         anchors=lambda c: [st for st in c.cfg.all_stmts() if isinstance(st, ast.Assign) and isinstance(st.targets[0], ast.Attribute) and st.targets[0].attr == "reference"])
     # rows shared with other properties' rules
     rep.part(shared, prog, rep)
-    rep.expect_min("C18.guard", 27)
+    rep.expect_min("C18.guard", 28)
     rep.expect_min("C18.hierarchy", 7)
     rep.expect_min("C18.shared", 21)
 
